@@ -78,6 +78,11 @@ var Dests = []Dest{
 	dt("[][]byte", new([][]byte)),
 	dt("[]S2", new([]S2)),
 	dt("[]struct{}", new([]struct{})),
+	dt("map[struct{}]struct{}", new(map[struct{}]struct{})),
+	dt("map[string]struct{}", new(map[string]struct{})),
+	dt("map[[0]int]struct{}", new(map[[0]int]struct{})),
+	dt("[][0]int", new([][0]int)),
+	dt("[]map[struct{}]struct{}", new([]map[struct{}]struct{})),
 	dt("[]bool", new([]bool)),
 	dt("[]float64", new([]float64)),
 	dt("[]uint16", new([]uint16)),
@@ -144,6 +149,7 @@ func StatsOf(t reflect.Type) TypeStats {
 		case reflect.Slice, reflect.Array:
 			if t.Elem().Kind() == reflect.Uint8 {
 				st.HasBytes = true
+				return // a byte string: a scalar as far as allocation goes
 			}
 			if s := int(t.Elem().Size()); s > st.MaxUnit {
 				st.MaxUnit = s
@@ -182,7 +188,8 @@ func StatsOf(t reflect.Type) TypeStats {
 //	   + levels * max(1024, MaxInitLen) * 2*unit   (decInferLen: every open container may have been
 //	     pre-sized from a claimed length, capped at max(1024, MaxInitLen) elements)
 //	   where levels = MaxDepth if the type holds an interface{} / Raw or is recursive, else its static depth
-//	K1 = 1024 + 8*unit per input byte (elements actually decoded: each consumes >= 1 byte; append growth)
+//	K1 = 1024 + 8*unit per input byte (elements actually decoded: each consumes >= 1 byte; append growth);
+//	     16 for a destination without containers (the bytes are copied; read buffers grow geometrically)
 func AllocBound(st TypeStats, o Opts, n int) (k0, k1 uint64) {
 	// usableByteSlice: a claimed length (array of uint8 read as bytes: []byte and string destinations,
 	// map keys, struct field names) allocates min(claimed, 64 MB) once before the first element is read
@@ -200,6 +207,9 @@ func AllocBound(st TypeStats, o Opts, n int) (k0, k1 uint64) {
 		k0 += uint64(o.RBS) + 1<<16
 	}
 	k1 = 1024 + 8*uint64(st.MaxUnit)
+	if st.Depth == 0 && !st.HasIface {
+		k1 = 16 // a scalar destination (string, number, time): the value is copied, buffers grow geometrically
+	}
 	return
 }
 
